@@ -77,7 +77,10 @@ def render_variant(d: M.Schema, rnd: Any) -> str:
 
     # \r is not in the grammar's ignore list: drop it from the pool effect by replacing
     text = printer.join_tokens(groups, sep)
-    return text
+    # blanks / comments before the preamble and after the last declaration
+    lead = rnd.choice(["", "", " ", "\n\n", "/* header */", "// header\n", "\t/**/\n"])
+    trail = rnd.choice(["", "", "\n", " ", "/* eof */", "// eof", "// eof\n", "\n\n\t"])
+    return lead + text + trail
 
 
 def classes_of(d: M.Schema) -> List[str]:
